@@ -173,7 +173,11 @@ class Trajectory(Container):
             raise ValueError(
                 'Trajectory must have a flight_time field for interpolation'
             )
-        orig_time = self._data['flight_time']
+        # Pointwise buffers of a trajectory built by appending points are
+        # allocated in blocks and may be longer than the trajectory, so only
+        # the first `len(self)` values of each buffer are data.
+        npoints = self._size
+        orig_time = self._data['flight_time'][:npoints]
 
         new_traj = Trajectory(len(new_time), fieldsets=list(self._fieldsets))
         for name, field in self._data_dictionary.items():
@@ -187,7 +191,7 @@ class Trajectory(Container):
                         new_species_values[sp] = np.interp(
                             new_time,
                             orig_time,
-                            self._data[name][sp],
+                            self._data[name][sp][:npoints],
                             left=np.nan,
                             right=np.nan,
                         )
@@ -197,7 +201,7 @@ class Trajectory(Container):
                     new_traj._data[name] = np.interp(
                         new_time,
                         orig_time,
-                        self._data[name],
+                        self._data[name][:npoints],
                         left=np.nan,
                         right=np.nan,
                     )
